@@ -718,17 +718,20 @@ variable (lt : Int → Int → Bool)
 def findEntry (m : FMap) (k : Int) : Option (Int × Int) := m.st[findIdx lt k m.st]?
 def find (m : FMap) (k : Int) : Option Int := (m.findEntry lt k).map (·.2)
 def count (m : FMap) (k : Int) : Nat := m.st.countP (fun p => same lt p.1 k)
-/-- operator[]: a reference to the mapped value, default-inserted at the END if absent -/
+/-- `ordered_pos(key)`: `std::upper_bound(begin, end, key, _comp(key, p.first))`, the position that keeps the
+    storage ordered by key (every insertion path uses it since the fix 'flat_map iterates in key order') -/
+def upos (m : FMap) (k : Int) : Nat := mapUpper lt m.st k m.st.length 0 m.st.length
+/-- operator[]: a reference to the mapped value, default-inserted at `ordered_pos(key)` if absent -/
 def index (m : FMap) (k : Int) : FMap × Int :=
   match m.find lt k with
   | some v => (m, v)
-  | none => (⟨m.st ++ [(k, 0)]⟩, 0)
+  | none => (⟨listInsert m.st (m.upos lt k) (k, 0)⟩, 0)
 /-- `m[k] = v` (a present entry keeps its stored key) -/
 def assign (m : FMap) (k v : Int) : FMap :=
   let i := findIdx lt k m.st
   match m.st[i]? with
   | some p => ⟨m.st.set i (p.1, v)⟩
-  | none => ⟨m.st ++ [(k, v)]⟩
+  | none => ⟨listInsert m.st (m.upos lt k) (k, v)⟩
 /-- insert(value): the entry the returned iterator points to -/
 def insert (m : FMap) (k v : Int) : FMap × Int × Int :=
   match m.findEntry lt k with
@@ -737,11 +740,28 @@ def insert (m : FMap) (k v : Int) : FMap × Int × Int :=
 def emplace (m : FMap) (k v : Int) : FMap × Bool × Int :=
   match m.find lt k with
   | some w => (m, false, w)
-  | none => (⟨m.st ++ [(k, v)]⟩, true, v)
-/-- initializer-list constructor (after the fix): first entry of a key wins -/
+  | none => (⟨listInsert m.st (m.upos lt k) (k, v)⟩, true, v)
+/-- initializer-list constructor (after the fixes): first entry of a key wins, entries are put at `ordered_pos` -/
 def ofList : List (Int × Int) → FMap → FMap
   | [], m => m
-  | (k, v) :: r, m => ofList r (if (m.find lt k).isSome then m else ⟨m.st ++ [(k, v)]⟩)
+  | (k, v) :: r, m => ofList r (if (m.find lt k).isSome then m else ⟨listInsert m.st (m.upos lt k) (k, v)⟩)
+/-- const operator[]: the mapped value, `T()` for an absent key; nothing is inserted -/
+def cindex (m : FMap) (k : Int) : Int := (m.find lt k).getD 0
+/-- BEFORE the fix 'flat_map iterates in key order': operator[] / `m[k] = v` / emplace / the initializer-list
+    constructor appended a new entry at the END of the storage (`storage.push_back`) -/
+def indexOrig (m : FMap) (k : Int) : FMap × Int :=
+  match m.find lt k with
+  | some v => (m, v)
+  | none => (⟨m.st ++ [(k, 0)]⟩, 0)
+def assignOrig (m : FMap) (k v : Int) : FMap :=
+  let i := findIdx lt k m.st
+  match m.st[i]? with
+  | some p => ⟨m.st.set i (p.1, v)⟩
+  | none => ⟨m.st ++ [(k, v)]⟩
+def emplaceOrig (m : FMap) (k v : Int) : FMap × Bool × Int :=
+  match m.find lt k with
+  | some w => (m, false, w)
+  | none => (⟨m.st ++ [(k, v)]⟩, true, v)
 /-- the constructor before the fix: `storage(init)` -/
 def ofListOrig (l : List (Int × Int)) : FMap := ⟨l⟩
 end FMap
@@ -795,6 +815,8 @@ inductive MOp where
   | size
   | clear
   | init (l : List (Int × Int))  -- `m = flat_map{…}` (initializer list)
+  | iter                         -- `for (it = begin(); it != end(); ++it)`
+  | cindex (k : Int)             -- `const flat_map &c = m; c[k]`
   deriving Repr
 
 inductive MRet where
@@ -805,6 +827,7 @@ inductive MRet where
   | opt (o : Option Int)         -- find: the mapped value or end()
   | nat (n : Nat)
   | throw
+  | entries (l : List (Int × Int))   -- the entries in iteration order
   deriving DecidableEq, Repr
 
 def FMap.step (lt : Int → Int → Bool) (m : FMap) : MOp → FMap × MRet
@@ -818,12 +841,35 @@ def FMap.step (lt : Int → Int → Bool) (m : FMap) : MOp → FMap × MRet
   | .size => (m, .nat m.size)
   | .clear => (⟨[]⟩, .unit)
   | .init l => (FMap.ofList lt l ⟨[]⟩, .unit)
+  | .iter => (m, .entries m.st)
+  | .cindex k => (m, .val (m.cindex lt k))
 
 def FMap.run (lt : Int → Int → Bool) : FMap → List MOp → FMap × List MRet
   | m, [] => (m, [])
   | m, op :: ops =>
     let (m1, r) := m.step lt op
     let (m2, rs) := FMap.run lt m1 ops
+    (m2, r :: rs)
+
+/-- `flat_map::operator==` compares the storage vectors (`storage == other.storage`) -/
+def FMap.eqStorage (a b : FMap) : Bool := a.st == b.st
+
+/-- a second map with the same entries put in through `c[key] = value` in REVERSE iteration order (driver op `meq`) -/
+def FMap.rebuiltRev (lt : Int → Int → Bool) (m : FMap) : FMap :=
+  m.st.reverse.foldl (fun c p => c.assign lt p.1 p.2) ⟨[]⟩
+
+/-- the flat_map operation step with the insertion paths as they were before the key-order fix -/
+def FMap.stepOrig (lt : Int → Int → Bool) (m : FMap) : MOp → FMap × MRet
+  | .index k => let (m, v) := m.indexOrig lt k; (m, .val v)
+  | .assign k v => (m.assignOrig lt k v, .unit)
+  | .emplace k v => let (m, b, w) := m.emplaceOrig lt k v; (m, .flag b w)
+  | op => m.step lt op
+
+def FMap.runOrig (lt : Int → Int → Bool) : FMap → List MOp → FMap × List MRet
+  | m, [] => (m, [])
+  | m, op :: ops =>
+    let (m1, r) := m.stepOrig lt op
+    let (m2, rs) := FMap.runOrig lt m1 ops
     (m2, r :: rs)
 
 inductive SOp where
@@ -1006,9 +1052,51 @@ def insertRangeOrig (v : Vec) (pos : Nat) (src : Src) (l : Ledger) : Option (Vec
 def vecAtConstOrig (v : Vec) (i : Nat) : Option (Option Val) :=
   if i ≥ v.size then none else vecAt v i
 
-/-- which original body is put back (one defect at a time; everything else is the repaired code) -/
+/-! ### default- versus value-initialisation
+
+  `igris::constructor(m_data + i)` (ctrdtr.h) is `new (ptr) T()` with an empty argument pack:
+  VALUE-initialisation, an `int` becomes 0 whatever bytes the slot memory held (`construct b i 0` in
+  `defaultLoop`; a `raw` slot of the model carries no value: it stands for memory with arbitrary contents, be
+  it never written, left behind by a destroyed element or part of a recycled block).  `new (ptr) T` —
+  DEFAULT-initialisation, what the seeded change C02-resize-default-init turns resize into — creates an object
+  of a trivially constructible T WITHOUT giving it a value: the value is indeterminate and reading it is a
+  fault.  In the slot model that is an object whose value must not be read, the state `moved`. -/
+
+/-- `new (ptr) T` for a trivially default-constructible T: an object with an indeterminate value -/
+def constructDefault (b : Buf) (i : Nat) : Option Buf :=
+  match b.get i with
+  | some .raw => some (b.put i .moved)
+  | _ => none
+
+/-- the growth loop of resize with default-initialisation -/
+def defaultLoopIndet (b : Buf) (i : Nat) : Nat → Ledger → Option (Buf × Ledger)
+  | 0, l => some (b, l)
+  | n + 1, l =>
+    match constructDefault b i with
+    | none => none
+    | some b => defaultLoopIndet b (i + 1) n (l.addCtor 1)
+
+/-- resize as it would be with `new (ptr) T` (seeded change C02-resize-default-init) -/
+def resizeDefaultInit (v : Vec) (n : Nat) (l : Ledger) : Option (Vec × Ledger) :=
+  match reserve v n l with
+  | none => none
+  | some (v, l) =>
+    match v.data with
+    | none => if n = 0 ∧ v.size = 0 then some (v, l) else none
+    | some b =>
+      if n > v.size then
+        match defaultLoopIndet b v.size (n - v.size) l with
+        | none => none
+        | some (b, l) => some ({ v with data := some b, size := n }, l)
+      else
+        match destroyRange b n (v.size - n) l with
+        | none => none
+        | some (b, l) => some ({ v with data := some b, size := n }, l)
+
+/-- which original body is put back (one defect at a time; everything else is the repaired code);
+    `resizeDefault` is not an original body but the seeded change C02-resize-default-init -/
 inductive Orig where
-  | copyAssign | eraseRange | eraseTo | pushBack | insert | emplace | insertRange | constAt
+  | copyAssign | eraseRange | eraseTo | pushBack | insert | emplace | insertRange | constAt | resizeDefault
   deriving DecidableEq, Repr
 
 def stepOrig (o : Orig) (s : St) (op : Op) : Option (St × Ret) :=
@@ -1024,6 +1112,11 @@ def stepOrig (o : Orig) (s : St) (op : Op) : Option (St × Ret) :=
   | .insertRange, .insertRange r pos src =>
     (insertRangeOrig (s.regs r) pos src s.led).map fun (v, l) => (s.set r v l, .pos pos)
   | .constAt, .at r i => (vecAtConstOrig (s.regs r) i).map fun x => (s, match x with | some v => .val v | none => .throw)
+  | .resizeDefault, .resize r n => (resizeDefaultInit (s.regs r) n s.led).map fun (v, l) => (s.set r v l, .unit)
+  | .resizeDefault, .sizeCtor d n =>
+    match invalidate (s.regs d) s.led with
+    | none => none
+    | some (_, l) => (resizeDefaultInit Vec.empty n l).map fun (v, l) => (s.set d v l, .unit)
   | _, op => step false s op
 
 /-- a history on the code with ONE original body put back, followed by the destructors of registers 0..2 -/
